@@ -5,7 +5,7 @@ Property theorems only (helper lemmas: `Proofs/Lifecycle*.lean`).  They are abou
 model of ONE connection's life-cycle (`Model/Lifecycle.lean`: receiver, processor, sender, any
 number of `stop()` callers and of external writers, the rest of the broker and the peer as
 environment events) and hold for EVERY initial buffer state, traffic still to come, schedule of
-thread steps and interleaved environment events (peer closes, stops/resumes reading, keep-alive
+thread steps and interleaved environment events (peer closes, half-closes, stops/resumes reading, keep-alive
 expiry, the connection a delivery is addressed to blocks/unblocks, `Server.Close`).
 `WF c` fixes the code as it is: repaired ring (the contract of C15 — DERIVED from the ring program, not assumed:
 `C16_ring_contract_is_C15`, `C16_ring_steps_use_ringA`, `C16_out_ring_one_producer`, at the end of this file; exact since the
@@ -25,8 +25,9 @@ space (repair 8f682d1, finding F3) — regenerated: `C16_source_shape` —, a ri
 * `C16_no_deadlock`          (c) the full statement: in a reachable state where the connection has
                              ended, the teardown is not complete, and the processor is not inside a
                              delivery into ANOTHER connection that is still open, has stopped reading
-                             and is full (`HeldUp` = `HeldByThird`: the property's exemption), some
-                             thread can step
+                             and is full (`HeldUp` = `HeldByThird`: the property's exemption), and the end
+                             is not a HALF-close of a self-held connection (`peerShut ∧ HeldBySelf`: the
+                             half-closed form of F8), some thread can step
 * `C16_receiver_reads_while_room`
                              a receiver inside its loop that cannot step is inside a socket read on an
                              open socket with nothing on the wire (waiting for the peer: keep-alive
@@ -41,9 +42,11 @@ space (repair 8f682d1, finding F3) — regenerated: `C16_source_shape` —, a ri
 * `C16_self_held_not_ended`  a connection whose processor is parked behind its OWN non-reading client
                              (`HeldBySelf`, an exemption before b77088f) is, when nothing can run, a
                              connection that has not ended: every end the receiver sees closes the socket
+                             — or one the peer has half-closed while the receiver, parked for room in the
+                             completely full incoming ring, does not read (`C16_halfclose_unnoticed`)
 * `C16_teardown_completes`   from any reachable state in which the connection has ended, fair
                              round-robin ends in the complete teardown — or in the state the property
-                             exempts (`HeldByThird`); nothing else
+                             exempts (`HeldByThird`), or in the unread half-close just named; nothing else
 * `C16_read_failure_completes` in particular once the receiver's read has failed (keep-alive deadline
                              fired, peer closed or reset, protocol garbage ending the processor —
                              anything that puts the receiver past its loop)
@@ -65,6 +68,12 @@ space (repair 8f682d1, finding F3) — regenerated: `C16_source_shape` —, a ri
 * `C16_no_foreign_panic`, `C16_late_delivery_fails_fast`
                              (d) `stop()` never clears the ring pointers, no writer dereferences nil;
                              a delivery to a connection whose outgoing ring is closed fails at once
+* `C16_halfclose_torn_down`, `C16_halfclose_needs_receiver_close`, `C16_halfclose_unnoticed`
+                             the half-closed socket (`peerShut`: reads return end-of-stream, writes still
+                             block): a half-close the receiver reads is torn down completely; closed
+                             counterexample: not so with the receiver before b77088f (the sender stays in its
+                             write); closed reachable state: a half-close the receiver does not read (incoming
+                             ring full) is not noticed until the peer goes away
 * closed counterexamples     the model wedges with the ring before 584775d (`C16_old_ring_wedges`,
                              D2/F2), a writer panics with the stop() before e79396e
                              (`C16_old_stop_panics`, F1), stop() wedges when `wgStopped.Wait` precedes
@@ -74,7 +83,8 @@ space (repair 8f682d1, finding F3) — regenerated: `C16_source_shape` —, a ri
 
 What stays open is not a deadlock of an ENDED connection but an end that is not noticed: a receiver
 parked because the incoming ring is completely full (behind a processor parked in the connection's
-own outgoing ring) has no read pending and no deadline armed — finding F8, `C19_silence_counterexample`.
+own outgoing ring) has no read pending and no deadline armed — finding F8, `C19_silence_counterexample`;
+with a peer that has half-closed, `Ended` is true of that state and the theorems name it (`C16_halfclose_unnoticed`).
 
 "Bounded time" is "bounded number of own steps"; that an enabled goroutine is eventually run
 (weak fairness of the Go scheduler) is the hypothesis that turns these into "the teardown finishes".
@@ -203,13 +213,19 @@ theorem C16_teardown_bounded (c : Cfg) (hw : WF c) (s0 : St) (h0 : Init c s0) (s
 exemption).  In a reachable state in which the connection has ended and the teardown is not
 complete, some thread can step — unless the processor is inside a delivery into ANOTHER connection
 that is still open, has stopped reading and is full (`HeldByThird`: the property's exemption — the
-connection's own non-reading client is no excuse, `C16_self_held_not_ended`).  (Before 8f682d1 a
+connection's own non-reading client is no excuse, `C16_self_held_not_ended`) — or the end is the peer's
+HALF-close and the connection is self-held (`sock = peerShut ∧ HeldBySelf`: the peer has shut down its sending
+direction and does not read, the socket is still writable, the processor is parked in the own outgoing ring;
+when nothing can run the receiver is then waiting for room in the completely full incoming ring and never reads
+the end-of-stream: the half-closed form of the open finding F8, `C16_self_held_not_ended`,
+`C16_halfclose_unnoticed`).  (Before 8f682d1 a
 second exception was needed: receiver and processor waiting for each other, `C16_old_readfrom_wedges`.) -/
 theorem C16_no_deadlock (c : Cfg) (hw : WF c) (s0 : St) (h0 : Init c s0) (sched : List Label) :
     let s := reach c s0 sched
     Ended s = true → Final s = false → HeldByThird s = false →
+    (s.sh.sock == .peerShut && HeldBySelf s) = false →
     ∃ t, en c s t = true := by
-  intro s he hf hh
+  intro s he hf hh hhc
   have hi : Inv c s := (C16_invariant c hw s0 h0 sched).1
   apply Classical.byContradiction
   intro hne
@@ -218,37 +234,31 @@ theorem C16_no_deadlock (c : Cfg) (hw : WF c) (s0 : St) (h0 : Init c s0) (sched 
     cases h : en c s t with
     | false => rfl
     | true => exact absurd ⟨t, h⟩ hne
-  rcases quiescent_cases_fixed c hw s hi hq with h | h | h
+  rcases quiescent_cases_fixed c hw s hi hq with h | h | h | h
   · rw [hf] at h; cases h
   · rw [hh] at h; cases h
   · rw [he] at h; cases h
+  · simp [h.1, h.2.1] at hhc
 
 /-- the exemption is exactly `HeldByThird` -/
 theorem C16_exemption_is_third_party (s : St) : HeldUp s = HeldByThird s := rfl
 
-/-- **a self-held connection has not ended** (repair b77088f).  In a reachable state in which no
-thread can step and the processor is inside a write to the connection's own outgoing ring while its
-own client is connected and not reading, the connection has not ended in any way the broker could
-have noticed: no read deadline has fired, the receiver is inside its loop, nobody has called
-`stop()`, the socket is open.  (Before the repair such a state could follow a keep-alive expiry or
-a receiver error and was exempted as "held up by self": `C16_old_receiver_wedges`.) -/
+/-- **a self-held connection has not ended** (repair b77088f) — in any way the broker has noticed.  In a
+reachable state in which no thread can step and the processor is inside a write to the connection's own
+outgoing ring while its own client is connected (the socket is writable: open or half-closed) and not
+reading: no read deadline has fired, the receiver is inside its loop, nobody has called `stop()`, and the
+socket is open — the connection has not ended — or the peer has HALF-closed it (`peerShut`) and the receiver
+is waiting for room in the completely full incoming ring: it issues no read and never sees the end-of-stream
+(the half-closed form of finding F8; `C16_halfclose_unnoticed`).  (Before the repair such a state could follow
+a keep-alive expiry or a receiver error and was exempted as "held up by self": `C16_old_receiver_wedges`.) -/
 theorem C16_self_held_not_ended (c : Cfg) (hw : WF c) (s0 : St) (h0 : Init c s0) (sched : List Label) :
     let s := reach c s0 sched
     quiescent c s = true → HeldBySelf s = true →
-    Ended s = false ∧ s.sh.timeout = false ∧ RPc.pastLoop s.recv = false ∧ s.sh.closed = false := by
+    (Ended s = false ∨ (s.sh.sock = .peerShut ∧ s.recv = .space ∧ s.sh.inR.done = false ∧ c.cap ≤ s.sh.inR.buf)) ∧
+    s.sh.timeout = false ∧ RPc.pastLoop s.recv = false ∧ s.sh.closed = false := by
   intro s hq hs
   have hi : Inv c s := (C16_invariant c hw s0 h0 sched).1
-  have he := self_held_not_ended c hw s hi ((quiescent_iff c s).mp hq) hs
-  refine ⟨he, ?_, ?_, ?_⟩
-  · cases h : s.sh.timeout with
-    | false => rfl
-    | true => simp [Ended, h] at he
-  · cases h : RPc.pastLoop s.recv with
-    | false => rfl
-    | true => simp [Ended, h] at he
-  · cases h : s.sh.closed with
-    | false => rfl
-    | true => simp [Ended, h] at he
+  exact self_held_not_ended c hw s hi ((quiescent_iff c s).mp hq) hs
 
 /-- **the receiver is never parked while the incoming ring has room** (repair 8f682d1).  In every
 reachable state: a receiver that is inside its loop and cannot step is
@@ -385,15 +395,20 @@ theorem C16_old_readfrom_wedges :
 in which the connection has ended, fair round-robin reaches within `rank` rounds a state in which
 nothing can run, and that state is the complete teardown (all goroutines exited, `stop()` returned,
 its effects complete) — or the processor is inside a delivery into ANOTHER connection that is still
-open, has stopped reading and is full.  Nothing else: a connection whose own client has stopped
-reading is no exception (b77088f), a packet arriving in pieces is none (8f682d1). -/
+open, has stopped reading and is full — or the end was the peer's HALF-close (`peerShut`), the peer does not
+read, the processor is parked in the connection's own outgoing ring and the receiver waits for room in the
+completely full incoming ring: no read is issued, the end-of-stream is never seen (the half-closed form of
+finding F8; `C16_halfclose_unnoticed`; whenever the receiver's read does fail the teardown completes:
+`C16_read_failure_completes`, `C16_halfclose_torn_down`).  Nothing else: a connection whose own client has
+stopped reading is otherwise no exception (b77088f), a packet arriving in pieces is none (8f682d1). -/
 theorem C16_teardown_completes (c : Cfg) (hw : WF c) (s0 : St) (h0 : Init c s0) (sched : List Label) :
     let s := reach c s0 sched
     Ended s = true →
     let q := drain c (rank c s) s
     quiescent c q = true ∧
     ((Final q = true ∧ TornDown q = true ∧ q.sh.effects = expectedEffects q.sh ∧ goroutinesLeft q = 0) ∨
-     HeldByThird q = true) := by
+     HeldByThird q = true ∨
+     (HeldBySelf q = true ∧ q.sh.sock = .peerShut ∧ q.recv = .space ∧ c.cap ≤ q.sh.inR.buf)) := by
   intro s he q
   have hi : Inv c s := (C16_invariant c hw s0 h0 sched).1
   have hq := drain_quiescent c hw _ s hi (Nat.le_refl _)
@@ -403,7 +418,7 @@ theorem C16_teardown_completes (c : Cfg) (hw : WF c) (s0 : St) (h0 : Init c s0) 
     show Ended (drain c (rank c s) s) = true
     rw [hrun]; exact (persist_run c hw s sched' hth).1 he
   refine ⟨hq, ?_⟩
-  rcases quiescent_cases_fixed c hw q hiq ((quiescent_iff c q).mp hq) with h | h | h
+  rcases quiescent_cases_fixed c hw q hiq ((quiescent_iff c q).mp hq) with h | h | h | h
   · left
     have hp : q.proc = .stop .finished := by
       simp only [Final, Bool.and_eq_true, beq_iff_eq] at h
@@ -413,8 +428,9 @@ theorem C16_teardown_completes (c : Cfg) (hw : WF c) (s0 : St) (h0 : Init c s0) 
     refine ⟨h, ht.1, ht.2, ?_⟩
     simp only [Final, Bool.and_eq_true, beq_iff_eq] at h
     simp [goroutinesLeft, h.1.1.1.1, h.1.1.1.2, hp]
-  · right; exact h
+  · right; left; exact h
   · rw [heq] at h; cases h
+  · right; right; exact ⟨h.1, h.2.1, h.2.2.1, h.2.2.2.2.1⟩
 
 /-- **a failed read always leads to the teardown.**  From any reachable state in which the
 receiver's read has failed — the keep-alive deadline has fired on it, or the receiver is already
@@ -432,9 +448,26 @@ theorem C16_read_failure_completes (c : Cfg) (hw : WF c) (s0 : St) (h0 : Init c 
     ((Final q = true ∧ TornDown q = true ∧ q.sh.effects = expectedEffects q.sh ∧ goroutinesLeft q = 0) ∨
      HeldByThird q = true) := by
   intro s hf
+  have hi : Inv c s := (C16_invariant c hw s0 h0 sched).1
   have he : Ended s = true := by
     rcases hf with h | h <;> simp [Ended, h]
-  exact C16_teardown_completes c hw s0 h0 sched he
+  have hrf : ReadFails s := by
+    rcases hf with h | h
+    · rcases hi.r.tmo h with hr | hr
+      · exact Or.inl ⟨hr, Or.inr h⟩
+      · exact Or.inr hr
+    · exact Or.inr h
+  obtain ⟨hq, hcases⟩ := C16_teardown_completes c hw s0 h0 sched he
+  refine ⟨hq, ?_⟩
+  rcases hcases with h | h | h
+  · exact Or.inl h
+  · exact Or.inr h
+  · -- the receiver's read has failed: it is not waiting for ring space
+    exfalso
+    obtain ⟨sched', hrun, hth⟩ := drain_is_run c (rank c s) s
+    have := readFails_not_space _ (readFails_run c hw s sched' hth hrf)
+    rw [← hrun] at this
+    exact this h.2.2.1
 
 /-- **the exemption is needed**: while the connection the processor delivers to stays open, not
 reading and full, no schedule of this connection's own threads gets the processor out of the
@@ -819,5 +852,133 @@ example :
 example :
     let s := run c0 selfInit (selfSched.dropLast)
     quiescent c0 s = true ∧ HeldBySelf s = true ∧ Ended s = false := by decide
+
+/-! ## The half-closed socket (`Sock.peerShut`)
+
+The peer shuts down its sending direction only (TCP FIN / `CloseWrite`) and neither reads nor closes.  The
+broker's socket READ returns end-of-stream; its socket WRITES behave as on an open socket: they block while
+the peer does not read.  What turns this into a closed socket — and so makes the sender's blocked write fail,
+the sender close the outgoing ring and the processor parked in it come back — is the receiver's `conn.Close()`
+on its read failure (b77088f, `Cfg.recvCloses`).  All theorems above quantify over every environment event,
+`peerShut` included (`reach` is `run` over any list of labels); the two below spell the case out. -/
+
+/-- **a half-close that the receiver reads is torn down completely.**  Instance of `C16_teardown_completes`
+for a run containing `.env .peerShut`: in a reachable state in which the socket is half-closed (an `.env
+.peerShut` of the run was taken and neither side has closed since) and the receiver is inside a socket read —
+whatever else: own outgoing ring full, the peer not reading, the sender blocked in its write, the connection's
+OWN processor parked in that ring — fair round-robin reaches within `rank` rounds the complete teardown; the
+only state in which it can stop short is the property's exemption (`HeldByThird`).  The half-closed
+alternative of `C16_teardown_completes` does not arise: the read returns end-of-stream, the receiver leaves its
+loop and closes the socket. -/
+theorem C16_halfclose_torn_down (c : Cfg) (hw : WF c) (s0 : St) (h0 : Init c s0) (sched : List Label) :
+    let s := reach c s0 sched
+    s.sh.sock = .peerShut → s.recv = .read →
+    let q := drain c (rank c s) s
+    quiescent c q = true ∧
+    ((Final q = true ∧ TornDown q = true ∧ q.sh.effects = expectedEffects q.sh ∧ goroutinesLeft q = 0) ∨
+     HeldByThird q = true) := by
+  intro s hso hr
+  have he : Ended s = true := by simp [Ended, hso]
+  have hrf : ReadFails s := Or.inl ⟨hr, Or.inl (by rw [hso]; decide)⟩
+  obtain ⟨hq, hcases⟩ := C16_teardown_completes c hw s0 h0 sched he
+  refine ⟨hq, ?_⟩
+  rcases hcases with h | h | h
+  · exact Or.inl h
+  · exact Or.inr h
+  · exfalso
+    obtain ⟨sched', hrun, hth⟩ := drain_is_run c (rank c s) s
+    have := readFails_not_space _ (readFails_run c hw s sched' hth hrf)
+    rw [← hrun] at this
+    exact this h.2.2.1
+
+/-- the self-held connection of `C16_old_receiver_wedges` (processor parked in `WriteWait` on the own outgoing
+ring, sender blocked in its write, the client not reading, the receiver inside a socket read), and then the
+client HALF-closes instead of staying silent -/
+def halfCloseSched : List Label := selfSched.dropLast ++ [.env .peerShut]
+
+/-- non-vacuity of `C16_halfclose_torn_down` (the "selfout" situation): every step of the schedule is taken;
+before the half-close nothing can run and the connection has not ended; after it the socket is half-closed, the
+peer is not reading, the processor is parked in its own outgoing ring, the sender is blocked, the receiver is
+inside a socket read — and round-robin (40 rounds, and `rank` rounds) tears the connection down completely: the
+receiver reads end-of-stream and closes the socket, will included -/
+example :
+    Init c0 selfInit ∧
+    (let s1 := reach c0 selfInit selfSched.dropLast
+     let s := reach c0 selfInit halfCloseSched
+     let q := drain c0 40 s
+     taken c0 selfInit halfCloseSched = halfCloseSched.length ∧
+     quiescent c0 s1 = true ∧ Ended s1 = false ∧
+     s.sh.sock = .peerShut ∧ s.sh.peerReads = false ∧ s.recv = .read ∧ s.proc = .ownWait 12 [] ∧ s.send = .write 8 ∧
+     HeldBySelf s = true ∧ Ended s = true ∧
+     quiescent c0 q = true ∧ Final q = true ∧ TornDown q = true ∧ q.sh.sock = .closed ∧
+     q.sh.effects = [.unsub, .will, .sessDel] ∧ goroutinesLeft q = 0 ∧ drain c0 (rank c0 s) s = q) := by
+  refine ⟨?_, by decide⟩
+  refine ⟨rfl, rfl, rfl, rfl, rfl, rfl, rfl, rfl, rfl, ?_, ?_, rfl, rfl, rfl⟩
+  · intro k hk; cases hk
+  · intro w hw; cases hw
+
+/-- **the half-close is torn down only because the receiver closes the socket** (closed counterexample, the
+half-closed form of F7).  Same configuration, initial state and schedule as the example above, but with the
+receiver before b77088f (`recvCloses := false`: it returns without `conn.Close()`): the receiver reads
+end-of-stream, closes the incoming ring and returns; the socket stays half-closed — still writable —, so the
+sender stays blocked in its write towards a peer that does not read, the outgoing ring stays open, the processor
+stays parked in it and never reaches its deferred `stop()`: a reachable state in which the connection has ended,
+nothing can run and nothing is torn down (no unsubscribe, no will; two goroutines left), and the property's
+exemption does not apply.  The receiver as it is tears the same state down completely. -/
+theorem C16_halfclose_needs_receiver_close :
+    Init c0 selfInit ∧
+    (let c : Cfg := { c0 with recvCloses := false }
+     let s := reach c selfInit halfCloseSched
+     let q := drain c 40 s
+     taken c selfInit halfCloseSched = halfCloseSched.length ∧
+     s.proc = .ownWait 12 [] ∧ s.recv = .read ∧ s.send = .write 8 ∧ s.sh.sock = .peerShut ∧ s.sh.peerReads = false ∧
+     quiescent c q = true ∧ Ended q = true ∧ Final q = false ∧ TornDown q = false ∧ HeldUp q = false ∧
+     HeldBySelf q = true ∧ q.recv = .exited ∧ q.send = .write 8 ∧ q.proc = .ownWait 12 [] ∧
+     q.sh.sock = .peerShut ∧ q.sh.inR.done = true ∧ q.sh.outR.done = false ∧ q.sh.closed = false ∧
+     q.sh.effects = [] ∧ goroutinesLeft q = 2 ∧ drain c 40 q = q) ∧
+    (let s := reach c0 selfInit halfCloseSched
+     let q := drain c0 40 s
+     s.proc = .ownWait 12 [] ∧ s.recv = .read ∧ s.send = .write 8 ∧ s.sh.sock = .peerShut ∧
+     Final q = true ∧ TornDown q = true ∧ q.sh.sock = .closed ∧
+     q.sh.effects = [.unsub, .will, .sessDel] ∧ goroutinesLeft q = 0) := by
+  refine ⟨?_, by decide, by decide⟩
+  refine ⟨rfl, rfl, rfl, rfl, rfl, rfl, rfl, rfl, rfl, ?_, ?_, rfl, rfl, rfl⟩
+  · intro k hk; cases hk
+  · intro w hw; cases hw
+
+/-- the client answers its own traffic (4-byte packets answered with 12 bytes), stops reading and keeps
+sending: 5 packets, 20 bytes on the wire — one packet that the processor consumes plus a whole incoming ring -/
+def fullInit : St :=
+  { sh := { stream := List.replicate 5 ⟨2, 4, .normal [.own 12]⟩, wire := 20, willFlag := true } }
+
+/-- the receiver takes 8 bytes, the processor answers the first packet and parks in `WriteWait` for the answer
+to the second (own outgoing ring: 12 of 16), the receiver fills the incoming ring (16 of 16) and waits for room,
+the sender's write blocks; then the client half-closes -/
+def fullSched : List Label :=
+  [.env (.peerReads false), .th .recv 0, .th .recv 8, .th .recv 0] ++ List.replicate 11 (.th .proc 0) ++
+  [.th .recv 0, .th .recv 8, .th .recv 0, .th .recv 0, .th .recv 8, .th .recv 0, .th .send 0, .env .peerShut]
+
+/-- **a half-close that the receiver does not read is not noticed** (the half-closed form of the open finding
+F8; why `C16_no_deadlock` and `C16_teardown_completes` name the state).  A reachable state of the code as it is —
+every step of the schedule is taken — in which the peer has half-closed and does not read, the receiver waits
+because the incoming ring is completely full (no socket read is issued, the end-of-stream is never seen, the
+socket is never closed), the sender is blocked in a write that the half-closed socket still accepts, the
+processor is parked in the connection's own outgoing ring: the connection has ended, nothing can run, nothing is
+torn down.  When the peer then goes away completely (`peerClose`: the blocked write fails) round-robin completes
+the teardown, will included. -/
+theorem C16_halfclose_unnoticed :
+    WF c0 ∧ Init c0 fullInit ∧
+    (let s := reach c0 fullInit fullSched
+     taken c0 fullInit fullSched = fullSched.length ∧
+     s.sh.sock = .peerShut ∧ s.sh.peerReads = false ∧ s.recv = .space ∧ s.sh.inR.buf = c0.cap ∧
+     s.proc = .ownWait 12 [] ∧ s.send = .write 8 ∧
+     quiescent c0 s = true ∧ Ended s = true ∧ Final s = false ∧ HeldUp s = false ∧ HeldBySelf s = true ∧
+     s.sh.closed = false ∧ s.sh.effects = [] ∧ goroutinesLeft s = 3 ∧ drain c0 40 s = s ∧
+     (let q := drain c0 40 ((estep c0 s .peerClose).getD s)
+      Final q = true ∧ TornDown q = true ∧ q.sh.effects = [.unsub, .will] ∧ goroutinesLeft q = 0)) := by
+  refine ⟨c0_wf, ?_, by decide⟩
+  refine ⟨rfl, rfl, rfl, rfl, rfl, rfl, rfl, rfl, rfl, ?_, ?_, rfl, rfl, rfl⟩
+  · intro k hk; cases hk
+  · intro w hw; cases hw
 
 end Mqtt.Properties.C16
